@@ -244,12 +244,16 @@ macro_rules! min_by_key {
 #[cfg_attr(feature = "docsrs", doc(cfg(feature = "cmp")))]
 macro_rules! max_by_key {
     ($left:expr, $right:expr, $($comparator:tt)*) => {
-        $crate::__::__parse_closure_1!{
-            ($crate::__minmax_by_key)
-            ($right, $left, Less,)
-            (max_by_key),
+        // evaluates the arguments in the order they're written,
+        // `__minmax_by_key` is passed them swapped.
+        match [$left, $right] {
+            [left, right] => $crate::__::__parse_closure_1!{
+                ($crate::__minmax_by_key)
+                (right, left, Less,)
+                (max_by_key),
 
-            $($comparator)*
+                $($comparator)*
+            }
         }
     };
 }
